@@ -121,6 +121,7 @@ class Engine:
         s._method_index = None
         s._resolve_cache = {}
         s._promoted = {}
+        s.loop_entry_hooks = {}     # fn name -> callback(engine, fn, info, L, state, fid) at the first arrival at a loop header
         s.trace = False
         s.cur_fn = None
         global NAMER
@@ -707,9 +708,9 @@ class Engine:
         for k in [k for k in m if k[0] == fid]: del m[k]
         return rs, rv
 
-    def run_region(s, fn, info, L, st, fid):
+    def run_region(s, fn, info, L, st, fid, start=None):
         order, members, children, owner = s.region_nodes(info, L)
-        pending = {(L if L is not None else 0): st}
+        pending = {(start if start is not None else (L if L is not None else 0)): st}
         exits = {}; back = None
         for n in order:
             cur = pending.pop(n, None)
@@ -730,6 +731,8 @@ class Engine:
         return exits, back
 
     def run_loop(s, fn, info, L, st, fid):
+        cb = s.loop_entry_hooks.get(fn.name)
+        if cb is not None: cb(s, fn, info, L, st, fid)
         all_exits = {}
         bound = s.unwind_for.get(fn.name, s.unwind)
         for k in range(bound + 1):
@@ -798,6 +801,12 @@ class Engine:
             args = [s.operand(st, fn, fid, a) for a in argops]
             dest_ty = fn.locals.get(dest[0]) if dest is not None and not dest[1] else None
             s.cur_fn = fn
+            if tgt is None and not any(pat == callee or (pat.startswith('re:') and re.fullmatch(pat[3:], callee)) for pat in s.hooks):
+                # diverging call (panic!, unreachable!, unwrap_failed, ...): a panic site
+                what = callee
+                if args and isinstance(args[0], S) and str_concrete(args[0]): what += ': ' + str_concrete(args[0])[:60]
+                s.obligations.append(Obligation(st.g, False, 'panic: diverging call %s' % what[:120], 'panic', '%s bb%d' % (fn.name, b)))
+                return []
             st2, rv = s.call(callee, st, args, fn, dest_ty)
             if st2 is None or st2.g is False: return []
             if tgt is None:
@@ -860,6 +869,7 @@ class Engine:
         c = strip_generics(callee)
         tc = crate
         if c.startswith('duckscript::'): c = c[len('duckscript::'):]; tc = 'core'
+        elif c.startswith('duckscriptsdk::'): c = c[len('duckscriptsdk::'):]; tc = 'sdk'
         f = s.mir.fns.get((tc, c))
         if f is not None and f.blocks: return ('fn', f)
         if c.startswith('<'):
@@ -930,7 +940,8 @@ class Engine:
         recv = args[0]
         obj = s.deref(st, recv) if isinstance(recv, (P, PV, U)) else recv
 
-        def one(st1, o):
+        def one(st1, o, recv=None):
+            recv = args[0] if recv is None else recv
             if isinstance(o, (P, PV)): o = s.deref(st1, o)      # Box<dyn T> behind a reference
             if not isinstance(o, T) or not o.ty: raise Abort('dyn call on %r (%s)' % (o, callee))
             h = s.dyn_impls.get((o.ty, method))
@@ -942,7 +953,7 @@ class Engine:
                 # default trait method body (e.g. Command::aliases)
                 f = s.mir.fns.get(('core', 'types::command::%s::%s' % (trait_last, method)))
                 if f is None: raise Abort('no impl of %s::%s for %s' % (trait_last, method, o.ty))
-            a0 = args[0] if f.params[0][1].startswith('&') else o
+            a0 = recv if f.params[0][1].startswith('&') else o
             return s.call_fn(f, st1, [a0] + args[1:])
         if isinstance(obj, U):
             res = None; rstate = None
@@ -950,7 +961,7 @@ class Engine:
                 g = simp(zand(st.g, c))
                 if g is False or not s.feasible(g): continue
                 st1 = State(g, dict(st.m))
-                st2, rv = one(st1, o)
+                st2, rv = one(st1, o, PV(s.deref(st1, o)) if isinstance(o, (P, PV)) else PV(o))
                 if st2 is None: continue
                 st2.m[('ret', 0)] = rv
                 rstate = merge_states(st2, rstate)
@@ -967,6 +978,16 @@ class Engine:
         if rs is None: st.g = False; return POISON
         st.g = rs.g; st.m = rs.m
         return rv
+
+    def finish_from(s, fn, fid, block, st):
+        """continue the execution of fn (top-level region) from `block` to the return: (state, return value) or (None, None)"""
+        info = s.cfg(fn)
+        s.stack.append(fn.name)
+        try: exits, _ = s.run_region(fn, info, None, st, fid, start=block)
+        finally: s.stack.pop()
+        rs = exits.get('RET')
+        if rs is None: return None, None
+        return rs, rs.m.get((fid, 0), UNIT)
 
     # ------------------------------------------------------------------ entry helper
     def run(s, crate, name, args, st=None):
